@@ -56,10 +56,21 @@ def options_reset_rules(prog, cg, reach, rep):
     rep.ob("R1", "the non-orthogonal options are replaced only by the two reset methods", sorted(set(wr)) == ["Equilibrium.resetNonorthogonalOptions", "EquilibriumRegion.resetNonorthogonalOptions"], EQ, str(wr), key="write/nonorth")
     for qn in ("Equilibrium.resetNonorthogonalOptions", "EquilibriumRegion.resetNonorthogonalOptions"):
         f = prog.func(EQ, qn)
-        ok = K("self.nonorthogonal_options=self.nonorthogonal_options_factory.create(nonorthogonal_settings)") in T(f.module, f.node)
+        from ..model import inline_temporaries
+        sts = [s_ for s_ in walk_own(f.node) if isinstance(s_, ast.Assign) and any(is_self_attr(t, "nonorthogonal_options") for t in s_.targets)]
+        ok = len(sts) == 1 and T(f.module, inline_temporaries(f.node, sts[0].value, inline_calls=True)) == K("self.nonorthogonal_options_factory.create(nonorthogonal_settings)")
         rep.ob("R1", "%s rebuilds the options from the factory defaults plus the given settings only (no merge with the previous values)" % qn, ok, f.site(), "", key="reset/" + qn)
     f = prog.func(EQ, "Equilibrium.resetNonorthogonalOptions")
-    ok = K("forregioninself.regions.values():region.resetNonorthogonalOptions(dict(self.nonorthogonal_options))") in T(f.module, f.node)
+    ok = False
+    for lp in walk_own(f.node):
+        if isinstance(lp, ast.For) and T(f.module, lp.iter) == K("self.regions.values()") and isinstance(lp.target, ast.Name):
+            for c_ in ast.walk(lp):
+                if isinstance(c_, ast.Call) and isinstance(c_.func, ast.Attribute) and c_.func.attr == "resetNonorthogonalOptions" and isinstance(c_.func.value, ast.Name) \
+                        and c_.func.value.id == lp.target.id and len(c_.args) == 1:
+                    arg = T(f.module, inline_temporaries(f.node, c_.args[0], inline_calls=True))
+                    # a fresh dict of the evaluated options for every region
+                    if arg in (K("dict(self.nonorthogonal_options)"), K("dict(self.nonorthogonal_options_factory.create(nonorthogonal_settings))")):
+                        ok = True
     rep.ob("R1", "the equilibrium propagates the evaluated options to every region", ok, f.site(), "", key="reset/propagate")
     # an empty settings dict means "all defaults", not "no change": optional settings arguments are
     # compared with None, never tested for truthiness
